@@ -227,7 +227,10 @@ Fresh ==
 
 TReset == Is("Reset") /\ Fresh
 
-Events == (TMapWG \/ TRef \/ TIssue \/ TInstEnd \/ TMemReq \/ TMemRsp \/ TWfEnd \/ TWGDone
+\* front-end facts (scenarios with "fe"): read by CUFrontTrace.tla, nothing for this specification
+TFrontEnd == l <= N /\ Ev.e \in {"Fetch", "FetchRsp", "Retire", "RefPC"} /\ l' = l + 1 /\ UNCHANGED vars /\ UNCHANGED aux
+
+Events == (TFrontEnd \/ TMapWG \/ TRef \/ TIssue \/ TInstEnd \/ TMemReq \/ TMemRsp \/ TWfEnd \/ TWGDone
            \/ TAceTake \/ TSampledEnd \/ TQuiesce \/ TFinal \/ TReset) /\ UNCHANGED rejects
 
 \* Tolerant mode (one TLC run reports every sub-trace the specification refuses): a sub-trace in which a
